@@ -47,5 +47,5 @@ bin/ngsmodel: $(THEORY_V) $(COQ)/Extract.v ocaml/driver.ml
 	  ocamlfind ocamlopt -O3 -package zarith -linkpkg -w -a model.mli model.ml driver.ml -o ../../bin/ngsmodel
 
 clean:
-	-cd $(COQ) && [ -f Makefile.coq ] && $(MAKE) -f Makefile.coq clean
-	rm -rf ocaml/gen bin/ngsmodel $(COQ)/Properties/*.vo $(COQ)/Properties/*.glob $(COQ)/Properties/*.out $(COQ)/Makefile.coq*
+	-find $(COQ) \( -name '*.vo' -o -name '*.vok' -o -name '*.vos' -o -name '*.glob' -o -name '.*.aux' -o -name '*.out' -o -name '*.out.tmp' \) -delete
+	rm -rf ocaml/gen bin/ngsmodel $(COQ)/Makefile.coq $(COQ)/Makefile.coq.conf $(COQ)/.Makefile.coq.d
